@@ -18,8 +18,9 @@ legs: MC   TLC explores all histories of <= 5 calls (parse / execute(object) / e
            row- and context-dependent functions) is compared folded vs per-row.
       C2S  random histories of <= 40 calls (modelled statements and ledger statements outside the model, on two
            connections over the same data) are recorded and replayed by TLC through BQLSession's steps
-           (Trace_BQLSession).  Every ledger statement is first (and last) executed on a connection of its own:
-           TLC holds every later result against that history-free one.
+           (Trace_BQLSession).  Every ledger statement is first (and last) executed on a connection of its own, and
+           once more in a NEW process (nothing else executed there, qualified statements first): TLC holds every
+           other result against those history-free ones.
 """
 import copy
 import datetime
@@ -262,6 +263,46 @@ def ledger_statements(entries):
     ]
 
 
+def pristine_refs(seed, ntxn):
+    """every ledger statement x parameters on a connection of its own, last statement first (the qualified ones before
+    the plain ones) -- run in a NEW process (start_pristine): nothing else has been executed there"""
+    import beanquery
+    entries, errors, options = c08mod.example_ledger(seed, ntxn)
+    stmts = ledger_statements(entries)
+    out = []
+    for k in reversed(range(len(stmts))):
+        text, plist = stmts[k]
+        for i in reversed(range(len(plist))):
+            cur = beanquery.connect('beancount:', entries=entries, errors=errors, options=options).cursor()
+            try:
+                cur.execute(text, plist[i])
+                res = {'ok': True, 'hash': digest(cur.description, cur.fetchall())}
+            except Exception as ex:  # noqa
+                res = {'ok': False, 'hash': 'EXC', 'exc': type(ex).__name__, 'msg': str(ex)[:120]}
+            out.append([k, i, res])
+    return out
+
+
+def start_pristine(ctx, ntxn):
+    import subprocess
+    import sys
+    from harness import core
+    code = ('import json; from harness import core; core.bootstrap_repo(); from harness.props import c09; '
+            'print(json.dumps(c09.pristine_refs(%d, %d)))' % (ctx.seed, ntxn))
+    return subprocess.Popen([sys.executable, '-c', code], cwd=core.VERIF, stdout=subprocess.PIPE, stderr=subprocess.PIPE, text=True)
+
+
+def collect_pristine(proc):
+    try:
+        out, err = proc.communicate(timeout=300)
+    except Exception:  # noqa
+        proc.kill()
+        raise MachineryError('the reference process for the ledger statements did not finish')
+    if proc.returncode != 0:
+        raise MachineryError('the reference process for the ledger statements failed: %s' % err[-400:])
+    return json.loads(out.strip().split('\n')[-1])
+
+
 # statements whose results must not depend on what ran before on the connection (or in the process): each pair is
 # (statement, an equivalent formulation); SELECT * FROM (q) = q is the law C08 model-checks (StarIdentity)
 PROBES = [
@@ -300,7 +341,8 @@ class Session:
         self.setup = setup
         self.tabs = setup['tabs']
         if ledger:
-            entries, errors, options = c08mod.example_ledger(ctx.seed, ctx.pick(40, 120))
+            self.ntxn = ctx.pick(40, 120)
+            entries, errors, options = c08mod.example_ledger(ctx.seed, self.ntxn)
             self.entries = entries
             self.entries_snapshot = copy.deepcopy(entries)
             self.ledger = (entries, errors, options)
@@ -559,9 +601,9 @@ def fold_case(ctx, conn, st, case, n):
                                        [tuple(bm.to_py([c[1], c[2]], st) for c in cols)])
     perrow = bm.project(bm.run_raw(conn, tree(e2, 'k')), st)
     legs = [('folded', folded), ('per-row', perrow)]
-    if n % 6 == 0:
+    if n % 8 == 0:
         # the constants as parameters (a placeholder needs its source position: through the parser)
-        e3, params = consts_to_params(e, st, named=n % 12 == 0)
+        e3, params = consts_to_params(e, st, named=n % 16 == 0)
         legs.append(('parameters', bm.project(bm.run_raw(conn, bm.parsed(text(e3, '')), params), st)))
     exp = {'ok': True, 'rows': [[v]]}
     rec = {'kind': 'fold', 'e': e, 'v': v, 'text': t1}
@@ -631,22 +673,22 @@ RICH = [   # (expression template, [(constant values..)..]) -- `{0}` .. are the 
     # boolean connectives: NULL / TRUE / FALSE operands in every order, NULL-valued operator results (x / 0, x % 0) and
     # operands of other types (truthiness) before and after a deciding constant; observable as an output, under
     # IS NULL, NOT and coalesce
-    ("{0} AND {1}", [(None, False), (False, None), (True, None), (None, True), (True, False), (None, None), (0, True), ('', None), (D('0.0'), 'x')]),
-    ("{0} OR {1}", [(None, True), (True, None), (None, False), (False, None), (False, False), (0, ''), (None, 'x')]),
-    ("{0} AND {1} AND {2}", [(True, None, False), (None, False, True), (True, True, None), (True, False, None)]),
-    ("{0} OR {1} OR {2}", [(False, None, True), (None, False, False), (False, False, None)]),
-    ("{0} AND {1} OR {2}", [(None, False, False), (None, False, True), (True, None, False)]),
+    ("{0} AND {1}", [(None, False), (False, None), (True, None), (None, True), (0, True), ('', None), (D('0.0'), 'x')]),
+    ("{0} OR {1}", [(None, True), (True, None), (None, False), (False, None), (0, ''), (None, 'x')]),
+    ("{0} AND {1} AND {2}", [(True, None, False), (None, False, True), (True, False, None)]),
+    ("{0} OR {1} OR {2}", [(False, None, True), (None, False, False)]),
+    ("{0} AND {1} OR {2}", [(None, False, False), (True, None, False)]),
     ("{0} OR {1} AND {2}", [(False, None, False), (None, True, False)]),
-    ("({0} AND {1}) IS NULL", [(None, False), (False, None), (True, True)]),
-    ("({0} OR {1}) IS NULL", [(None, False), (None, True), (False, None)]),
-    ("NOT ({0} AND {1})", [(None, False), (True, None), (False, None)]),
-    ("NOT ({0} OR {1})", [(None, False), (False, False), (None, True)]),
-    ("NOT {0}", [(None,), (True,), (0,), ('',)]),
-    ("coalesce({0} AND {1}, {2})", [(None, False, True), (False, None, True)]),
+    ("({0} AND {1}) IS NULL", [(None, False), (False, None)]),
+    ("({0} OR {1}) IS NULL", [(None, False), (None, True)]),
+    ("NOT ({0} AND {1})", [(None, False), (True, None)]),
+    ("NOT ({0} OR {1})", [(None, False), (None, True)]),
+    ("NOT {0}", [(None,), (0,), ('',)]),
+    ("coalesce({0} AND {1}, {2})", [(None, False, True)]),
     ("({0} / {1} > {2}) AND {3}", [(D('1.0'), D('0.0'), 0, False), (D('1.0'), D('2.0'), 0, False), (D('1.0'), D('0.0'), 0, True)]),
     ("{3} AND ({0} / {1} > {2})", [(D('1.0'), D('0.0'), 0, False), (D('1.0'), D('0.0'), 0, True)]),
-    ("({0} / {1} > {2}) OR {3}", [(D('1.0'), D('0.0'), 0, True), (D('1.0'), D('0.0'), 0, False), (D('1.0'), D('2.0'), 0, False)]),
-    ("({0} % {1} = {2}) AND {3} < {2}", [(7, 0, 1, 2), (7, 0, 1, 0), (7, 3, 1, 2)]),
+    ("({0} / {1} > {2}) OR {3}", [(D('1.0'), D('0.0'), 0, True), (D('1.0'), D('0.0'), 0, False)]),
+    ("({0} % {1} = {2}) AND {3} < {2}", [(7, 0, 1, 2), (7, 0, 1, 0)]),
     ("(({0} % {1} = {2}) AND {3}) IS NULL", [(7, 0, 1, False), (7, 3, 1, False)]),
     ("{0} - {1} < {2} AND {3} ~ {4}", [(datetime.date(2024, 1, 31), datetime.date(2024, 1, 1), 31, 'Assets:Cash', 'cash'),
                                        (datetime.date(2024, 1, 31), datetime.date(2024, 1, 1), 30, 'Assets:Cash', 'cash')]),
@@ -692,7 +734,10 @@ def rich_folding(ctx, conn, trace=None):
             t2 = 'SELECT %s AS r FROM #k' % tmpl.format(*['k%d' % i for i in range(len(vals))])
             e3, params = as_parameters(tmpl, vals, named=n % 2 == 0)
             t3 = 'SELECT %s AS r FROM #' % e3
-            a, b, c = bm.run_raw(conn, bm.parsed(t1)), bm.run_raw(conn, bm.parsed(t2)), bm.run_raw(conn, bm.parsed(t3), params)
+            a, b = bm.run_raw(conn, bm.parsed(t1)), bm.run_raw(conn, bm.parsed(t2))
+            # (parsing dominates: the parameter form for the connectives and every third of the rest)
+            with_params = n % 3 == 0 or any(w in tmpl for w in (' AND ', ' OR ', 'NOT '))
+            c = bm.run_raw(conn, bm.parsed(t3), params) if with_params else a
             oa, ob, oc = c08mod.project_opaque(a), c08mod.project_opaque(b), c08mod.project_opaque(c)
             rows = lambda o: o['rows'] if o['ok'] else [['exc', o['exc']]]      # noqa
             if trace is not None:
@@ -840,6 +885,7 @@ def c2s(ctx):
     """random histories of <= 40 calls, recorded and judged by TLC"""
     r = ctx.tlc('Gen_BQLSession', 'Gen_BQLSession_setup7.cfg', leg='GEN-setup', workers=1)
     setup = r.printed[0]
+    pristine = start_pristine(ctx, ctx.pick(40, 120))       # runs beside the recording
     sess = Session(ctx, setup)
     bm.install_tables(sess.conn2, sess.tabs, sess.st)
     sess.leg = 'C2S'
@@ -922,6 +968,12 @@ def c2s(ctx):
         f.write(json.dumps({'op': 'begin', 'id': eid}) + '\n')
         nlines += 1
         fresh_events(f)
+        # and what a NEW process returned for them (nothing else executed there, the qualified statements first)
+        for k, i, res in collect_pristine(pristine):
+            eid += 1
+            f.write(json.dumps({'op': 'fresh', 'id': eid, 's': nmod + k + 1, 'ps': [i + 1], 'res': res, 'same': True, 'process': 'new'}) + '\n')
+            nlines += 1
+            nfresh += 1
         # folding events: a constant expression folded / evaluated per row / with parameters (values outside the model: opaque)
         folds = []
         rich_folding(ctx, sess.conn, trace=folds)
@@ -973,7 +1025,11 @@ def run(ctx):
     ctx.assumptions += ['a call whose parameters do not fit the placeholders is outside the statement: executed, not judged, counted',
                         'execute(text) and executemany mostly receive a fresh copy of the statement the real parser produced '
                         'for that text (TatSu costs 10-50 ms); a fixed fraction goes through the real parser',
-                        'ledger statements are outside the model: judged as "result is a function of (text, params)" by TLC',
+                        'ledger statements are outside the model: judged as "result is a function of (text, params, entries)" -- by '
+                        'TLC over the recorded calls (history-free executions on connections of their own, in this and in a new '
+                        'process, included), and against a fresh connection whenever one runs between the calls of a replayed history',
+                        'the value of a connective is the pinned one (DESIGN Appendix B: AND stops at the first NULL or false operand, '
+                        'OR is Kleene); the relational folding legs (folded = per row = parameters) do not depend on it',
                         'TLC 1.8, Json/IOUtils community modules, CPython 3.12']
     only = getattr(ctx, 'only_legs', None)
     if not only or 'MC' in only:
@@ -1052,13 +1108,29 @@ def replay(ctx, rep):
         bad = a != b or (bool(case['spec'].get('matches')) and not a['ok'])     # matching parameters never fail
         print('replay:', 'MISMATCH reproduced' if bad else 'no mismatch')
         return 1 if bad else 0
+    if case.get('kind') == 'fold':
+        import beanquery
+        before = len(ctx.violations) + sum(v['n'] for v in ctx.known_hits.values())
+        for n in (0, 1):            # through the parser + with parameters, and hand-built
+            fold_case(ctx, beanquery.Connection(), bm.StrTab(), case, n)
+        after = len(ctx.violations) + sum(v['n'] for v in ctx.known_hits.values())
+        print('replay:', case['text'], '-- specification:', case['v'])
+        print('replay:', 'MISMATCH reproduced' if after > before else 'no mismatch')
+        return 1 if after > before else 0
+    if case.get('kind') == 'ledger':
+        print('replay: ledger statement', case.get('ledger'), case.get('params'))
+        print('replay: compare its result after other statements on one connection with a fresh connection; re-run the check')
+        return 2
     if case.get('kind') in ('richfold', 'impurefold'):
 
         import beanquery
         from harness import tables as ht  # noqa
         print('replay: folded  ', case.get('folded_text') or case.get('a'))
         print('replay: per row ', case.get('perrow_text') or case.get('b'))
+        if case.get('params_text'):
+            print('replay: params  ', case['params_text'], case.get('params'))
         print('replay: re-run the check (needs the ledger / the one-row table)')
         return 2
     print('replay: case kind not replayable standalone; re-run the check')
     return 2
+
